@@ -129,7 +129,7 @@ Proof.
   cbn [in_domain]. rewrite andb_true_iff. intros [Hf Hp]. fix_operands args Hf zs Hin.
   destruct zs as [|n [|d [|? ?]]]; try discriminate. cbn [map s_out denotes denote m_op m_rem s_op norm_kind as_int].
   cbn in Hin. apply andb_true_iff in Hin as [Hn Hd']. apply andb_true_iff in Hd' as [Hd _].
-  apply negb_true_iff in Hp. rewrite Hp. unfold grem. f_equal. f_equal. f_equal.
+  clear Hp. destruct (d =? 0) eqn:Hp; [reflexivity|]. unfold grem. f_equal. f_equal. f_equal.
   apply canon_int_fix. apply in64_spec in Hn, Hd. apply in64_spec. unfold two63 in *. apply Z.eqb_neq in Hp. clear Hf Heqzs. lia.
 Qed.
 Lemma mod_exact args : in_domain OMod args = true -> s_out OMod args = Some (m_op OMod args).
@@ -167,9 +167,10 @@ Qed.
 Ltac round_setup args Hf Hp zs Hin n d Hn Hd Hnz Hq Hm :=
   cbn [in_domain] in *; apply andb_true_iff in Hp as [Hf Hp]; fix_operands args Hf zs Hin;
   destruct zs as [|n [|d [|? ?]]]; try discriminate;
+  destruct (d =? 0) eqn:Hnz; [apply Z.eqb_eq in Hnz; subst d; reflexivity|];
+  cbn [orb] in Hp;
   cbn in Hin; apply andb_true_iff in Hin as [Hn Hin]; apply andb_true_iff in Hin as [Hd _];
-  apply andb_true_iff in Hp as [Hp Hm]; apply andb_true_iff in Hp as [Hnz Hq];
-  apply negb_true_iff in Hnz;
+  apply andb_true_iff in Hp as [Hq Hm];
   cbn [map s_out denotes denote m_op m_round s_op norm_kind as_int];
   rewrite Hnz; unfold round_fix; rewrite Hnz; unfold gquot; rewrite (wrap64_id _ Hq);
   apply in64_spec in Hn, Hd; apply Z.eqb_neq in Hnz;
@@ -362,7 +363,6 @@ Definition refutation_witnesses : list (opn * list val) :=
     (ODiv, [VRat 1 2; VRat 1 2]);                                      (* integer-valued ratio not demoted *)
     (OAdd, [VBig B; VRat 1 2]);                                        (* bignum + ratio goes through floats *)
     (OGcd, [VBig B; VFix 10]);                                         (* gcd rejects bignums *)
-    (ORem, [VFix 5; VFix 0]);                                          (* rem by zero: Go runtime fault *)
     (OMod, [VFix 5; VFix 0]);                                          (* arithmetic-error, not division-by-zero *)
     (ORound Truncate, [VFix (-9223372036854775808); VFix (-1)]);       (* quotient wraps *)
     (OCmp CEq, [VBig 590295810358705651712; VRat 1180591620717411303425 2]);    (* 2^69 = 2^69 + 1/2 through float64 *)
